@@ -122,6 +122,23 @@ def run(ctx):
             return any(R.const_operand_is(o, keys={"noodles_bgzf::deflate::encode::MAX_COMPRESSED_SIZE"}) for o in ops)
         R.bound_guard(ctx, "C01.R3", fe.key, "compressed size <= MAX_COMPRESSED_SIZE before Ok", is_bound, fn=fe)
 
+    # the output buffer handed to the compressor holds at least compress_bound(src.len()) bytes: otherwise an
+    # incompressible block ends with Status::Ok (buffer full) instead of StreamEnd and valid data is rejected
+    if fe is not None and fe.cfg == "D":
+        rs = R.find_calls(fe, r"Vec::<T, A>::resize$")
+        cb = R.find_calls(fe, r"compress_bound$")
+        if not rs or not cb:
+            ctx.violation("C01.R3", "C01.R3/ANCHOR-MISSING/%s/compress_bound" % fe.key,
+                          "deflate::encode no longer sizes its output with compress_bound()", fe.loc())
+        else:
+            ok = all(_at_least_call_result(fe, c["args"][1], r"compress_bound$") for b, c in rs)
+            if ok:
+                ctx.ok("C01.R3", "deflate::encode: dst.resize(n) with n >= compress_bound(src.len())", "", fe.loc())
+            else:
+                ctx.violation("C01.R3", "C01.R3/output-buffer/" + fe.key,
+                              "deflate::encode sizes the compressor's output buffer with something that can be smaller than "
+                              "compress_bound(src.len()): incompressible data then ends in Status::Ok and the block is rejected", fe.loc(rs[0][0]))
+
     # ---------------------------------------------------------------- R4 checked conversions (A4)
     ctx.rule("C01.R4", "A4 BSIZE/ISIZE written only through try_from; block_size returned = HEADER+len+TRAILER")
     for key, ty in ((FW + "write_header", "u16"), (FW + "write_trailer", "u32")):
@@ -255,6 +272,42 @@ def _is_discr_or_const(f, op):
     l = C.op_local(op)
     d = C.single_def(f, l) if l is not None else None
     return d is not None and d[0] == "=" and d[3][0] in ("discr",)
+
+
+def _at_least_call_result(f, op, callee_rx, depth=0):
+    """Is the operand provably >= the result of a call matching callee_rx?  (moves, widening casts, + non-negative,
+    max(..) keep the lower bound; min, -, /, >> and anything else do not)."""
+    import re as _re
+    if depth > 8:
+        return False
+    l = C.op_local(op)
+    if l is None:
+        return False
+    d = C.single_def(f, l)
+    if d is None:
+        return False
+    if d[0] == "call":
+        k = d[2].get("f") or ""
+        if _re.search(callee_rx, k):
+            return True
+        if _re.search(r"(cmp::Ord::max|as core::cmp::Ord>::max|cmp::max)$", k):
+            return any(_at_least_call_result(f, a, callee_rx, depth + 1) for a in d[2]["args"])
+        return False
+    if d[0] == "=":
+        rv = d[3]
+        if rv[0] == "use":
+            return _at_least_call_result(f, rv[1], callee_rx, depth + 1)
+        if rv[0] == "cast" and rv[1] == "IntToInt":
+            return _at_least_call_result(f, rv[2], callee_rx, depth + 1)
+        if rv[0] == "bin" and rv[1] in ("Add", "AddWithOverflow", "AddUnchecked"):
+            return _at_least_call_result(f, rv[2], callee_rx, depth + 1) or _at_least_call_result(f, rv[3], callee_rx, depth + 1)
+    # (_x.0) of a WithOverflow pair
+    p = C.op_place(op)
+    if p and len(p[1]) == 1 and isinstance(p[1][0], list) and p[1][0][0] == "f" and p[1][0][1] == 0:
+        dd = C.single_def(f, p[0])
+        if dd is not None and dd[0] == "=" and dd[3][0] == "bin" and dd[3][1] == "AddWithOverflow":
+            return _at_least_call_result(f, dd[3][2], callee_rx, depth + 1) or _at_least_call_result(f, dd[3][3], callee_rx, depth + 1)
+    return False
 
 
 def _narrowing(frm, to):
